@@ -685,7 +685,10 @@ class Stream(AbstractStream):
         if isinstance(stream_data, StreamData):
             self.empty()
             self.phases = stream_data._phases
-            self._imol.copy_like(stream_data._imol)
+            imol = stream_data._imol
+            if imol.data.ndim == 2 and self._imol.data.ndim == 1: # Data of a multi-phase stream holding one phase
+                imol = imol.get_phase(imol._phases[0])
+            self._imol.copy_like(imol)
             self._thermal_condition.copy_like(stream_data)
         else:
             raise ValueError(f'stream_data must be a StreamData object; not {type(stream_data).__name__}')
